@@ -478,12 +478,19 @@ func (it *element[T]) wait(ctx context.Context, direction dqDirection) error {
 
 	// use the cond var for the head or tail if we're waiting for
 	// a new item. The addAfter method signals both forward and
-	// reverse waiters when the queue is empty.
+	// reverse waiters when the queue is empty, and otherwise
+	// signals the waiters of the end that the new element is at:
+	// an iterator that has reached the last (first) element waits
+	// for a push at the back (front).
 	switch {
-	case (direction == dqPrev) && it.prev.isRoot():
+	case (direction == dqPrev) && it.prev.isRoot() && it.isRoot():
 		cond = it.list.nback
-	case (direction == dqNext) && it.next.isRoot():
+	case (direction == dqNext) && it.next.isRoot() && it.isRoot():
 		cond = it.list.nfront
+	case (direction == dqPrev) && it.prev.isRoot():
+		cond = it.list.nfront
+	case (direction == dqNext) && it.next.isRoot():
+		cond = it.list.nback
 	default:
 		cond = it.list.updates
 	}
